@@ -236,20 +236,25 @@ func runShard(shard int) *shardResult {
 	res := &shardResult{}
 	logPath := filepath.Join(workDir, fmt.Sprintf("shard-%d.log", shard))
 	from := int64(0)
+	var carry *summary
 	for {
 		stderrPath := filepath.Join(workDir, fmt.Sprintf("shard-%d.stderr.%d", shard, res.restarts))
 		cmd := workerCmd(shard, from, -1, logPath, stderrPath, meta.NoProgressS)
 		err := runWithTimeout(cmd, shardTimeout())
-		sum, vios, lastB, lastID, hung := parseLog(logPath)
+		sum, vios, lastB, lastID, hung, partial := parseLog(logPath)
 		if err == errShardTimeout {
 			res.incon = append(res.incon, fmt.Sprintf("shard %d exceeded the wall-clock watchdog (%v) in case %d (%s); not a verdict", shard, shardTimeout(), lastB, lastID))
 			res.violations = vios
 			break
 		}
 		if err == nil && sum != nil {
-			res.sum = sum
+			res.sum = mergeSummaries(carry, sum)
 			res.violations = vios
 			break
+		}
+		// coverage of the run that died: its last periodic record
+		if partial != nil {
+			carry = mergeSummaries(carry, partial)
 		}
 		// the worker died: attribute to the last announced case
 		stderrB, _ := os.ReadFile(stderrPath)
@@ -275,6 +280,16 @@ func runShard(shard int) *shardResult {
 			} else {
 				res.incon = append(res.incon, fmt.Sprintf("case %d (%s) nominated as hang but finished when re-run alone", lastB, lastID))
 			}
+			if confirmed {
+				// one confirmed hang decides the shard; the rest of its cases is not run
+				res.violations = vios
+				res.incon = append(res.incon, fmt.Sprintf("shard %d stopped after a confirmed hang in case %d", shard, lastB))
+				if partial != nil {
+					carry = mergeSummaries(carry, partial)
+				}
+				res.sum = carry
+				break
+			}
 		} else {
 			class, top := classifyDeath(stderr)
 			vios = append(vios, violation{Seq: lastB, CaseID: lastID, Fingerprint: "crash:" + class + "@" + top,
@@ -285,6 +300,7 @@ func runShard(shard int) *shardResult {
 		res.restarts++
 		if res.restarts > 25 {
 			res.incon = append(res.incon, fmt.Sprintf("shard %d: more than 25 worker deaths, giving up after case %d", shard, lastB))
+			res.sum = carry
 			break
 		}
 		// persist violations collected so far, then restart after the fatal case
@@ -363,7 +379,7 @@ func tail(s string, n int) string {
 	return "…" + s[len(s)-n:]
 }
 
-func parseLog(path string) (sum *summary, vios []violation, lastB int64, lastID string, hung bool) {
+func parseLog(path string) (sum *summary, vios []violation, lastB int64, lastID string, hung bool, partial *summary) {
 	lastB = -1
 	f, err := os.Open(path)
 	if err != nil {
@@ -400,9 +416,38 @@ func parseLog(path string) (sum *summary, vios []violation, lastB int64, lastID 
 			if json.Unmarshal([]byte(line[2:]), &s) == nil {
 				sum = &s
 			}
+		case 'P':
+			var s summary
+			if json.Unmarshal([]byte(line[2:]), &s) == nil {
+				partial = &s
+			}
 		}
 	}
 	return
+}
+
+// mergeSummaries adds the coverage of an earlier (dead) worker run.
+func mergeSummaries(a, b *summary) *summary {
+	if a == nil {
+		return b
+	}
+	out := &summary{Evaluations: a.Evaluations + b.Evaluations, Counters: map[string]int64{}, Samples: append(append([]string(nil), a.Samples...), b.Samples...), Violations: a.Violations + b.Violations, Cases: b.Cases}
+	if a.Cases > out.Cases {
+		out.Cases = a.Cases
+	}
+	for k, v := range a.Counters {
+		out.Counters[k] = v
+	}
+	for k, v := range b.Counters {
+		if strings.HasPrefix(k, "max:") {
+			if v > out.Counters[k] {
+				out.Counters[k] = v
+			}
+		} else {
+			out.Counters[k] += v
+		}
+	}
+	return out
 }
 
 func readHashes(path string) []uint64 {
@@ -681,7 +726,7 @@ func doReplay(path string) int {
 	cmd.Stdout = os.Stdout
 	cmd.Stderr = os.Stderr
 	err = cmd.Run()
-	_, vios, _, _, _ := parseLog(logPath)
+	_, vios, _, _, _, _ := parseLog(logPath)
 	if err != nil {
 		fmt.Printf("REPLAY worker exited: %v\n", err)
 		return 1
